@@ -51,6 +51,11 @@ func (w *World) dnsScript(o *op) string {
 			return p.Script[n-1]
 		}
 	}
+	for i := range w.Sc.DNS {
+		if p := &w.Sc.DNS[i]; p.Addr == "*" && len(p.Script) > 0 {
+			return p.Script[min(o.nth, len(p.Script))-1] // default plan for addresses without one of their own
+		}
+	}
 	return "error"
 }
 
